@@ -5,13 +5,15 @@
    internal/stream at the granularity of Stream.mutex / the ring-buffer mutex.  A history is ANY list of labels
    that the system can execute from the initial state (`run (init fmts n) ls = Some s`): this is every schedule of
    the writer, the reader goroutines and the callers of AddReader/RemoveReader at that granularity, for every queue
-   size n > 0, every set of formats, readers and sub-streams.  `offered r ls` is read off the labels alone: the
-   (format, unit) pairs of the Write labels issued through the sub-stream that was current at that moment (last
-   NewSub), while r was attached (after AddReader r, before RemoveBegin r), to a format r subscribed to, in write
-   order.  `ring_holds b q` says that ring buffer b contains exactly q, oldest first.
+   size n > 0, every set of medias/formats, readers and sub-streams.  A stream format is identified as in the code, by
+   the pair (media, format) that indexes Stream.medias[m].formats[f]; one media may carry several formats.
+   `asked r ls` is the list of r's OnData labels (the pairs it subscribed to).  `offered r ls` is read off the labels
+   alone: the ((media, format), unit) triples of the Write labels issued through the sub-stream that was current at
+   that moment (last NewSub), while r was attached (after AddReader r, before RemoveBegin r), to a pair r asked for
+   before it was added, in write order.  `ring_holds b q` says that ring buffer b contains exactly q, oldest first.
    Not covered: data races / the Go memory model (the theorems are about interleavings of the mutex-protected steps). *)
-From Coq Require Import List ZArith Arith.
-Require Import MTX.Model.C17_StreamSM MTX.Proofs.C17_StreamSM.
+From Coq Require Import List ZArith Arith Bool.
+Require Import MTX.Model.C17_StreamSM MTX.Proofs.C17_StreamSM MTX.Model.C17_WriteLock MTX.Proofs.C17_WriteLock.
 Import ListNotations.
 
 (* what reader r has been handed (callbacks finished ++ the one in flight) followed by what is still queued for it
@@ -131,6 +133,72 @@ Theorem C17_subscribed_iff : forall s r rd f,
 Proof. exact subscribed_iff. Qed.
 Print Assumptions C17_subscribed_iff.
 
+(* Reader.OnData adds exactly the pair it is called with to r.onDatas: a second format of a media that already has
+   an entry does not replace the first *)
+Theorem C17_ondata_keeps_earlier : forall od m f k,
+  In k (keys_of (on_data od m f)) <-> k = (m, f) \/ In k (keys_of od).
+Proof. exact on_data_keys. Qed.
+Print Assumptions C17_ondata_keeps_earlier.
+
+(* in every history the pairs a reader is registered with are exactly the pairs of its OnData labels ... *)
+Theorem C17_subs_are_asked : forall fmts n ls s r rd,
+  0 < n -> run (init fmts n) ls = Some s -> s_readers s r = Some rd ->
+  forall k, In k (r_subs rd) <-> In k (asked r ls).
+Proof. exact subs_are_asked. Qed.
+Print Assumptions C17_subs_are_asked.
+
+(* ... and the subscriber table of (media, format) k holds exactly the attached readers that asked for k *)
+Theorem C17_subscribed_iff_asked : forall fmts n ls s r rd k,
+  0 < n -> run (init fmts n) ls = Some s -> s_readers s r = Some rd ->
+  (In r (s_onDatas s k) <-> r_phase rd = Attached /\ In k (asked r ls)).
+Proof. exact subscribed_iff_asked. Qed.
+Print Assumptions C17_subscribed_iff_asked.
+
+(* `offered`, label by label: a Write adds its unit for r exactly when it goes through the current sub-stream while
+   r is attached and r asked for that pair (any of them: C17_accounting then says the unit is delivered, in flight,
+   queued or counted as discarded); no other label changes `offered` *)
+Theorem C17_offered_write : forall fmts n ls s r rd ss k u,
+  0 < n -> run (init fmts n) ls = Some s -> s_readers s r = Some rd ->
+  offered r (ls ++ [Write ss k u]) =
+    if match r_phase rd with Attached => true | _ => false end && opt_eqb (s_cur s) ss && memK k (asked r ls)
+    then offered r ls ++ [(k, u)] else offered r ls.
+Proof. exact offered_write. Qed.
+Print Assumptions C17_offered_write.
+
+Theorem C17_offered_other : forall r ls l,
+  (forall ss k u, l <> Write ss k u) -> offered r (ls ++ [l]) = offered r ls.
+Proof. exact offered_snoc_other. Qed.
+Print Assumptions C17_offered_other.
+
+(* SubStream.WriteUnit split into start / RLock returns / currency comparison / finish (Model/C17_WriteLock.v), all
+   other labels whole, AddReader/RemoveBegin/NewSub enabled only while no call holds the read lock: with the code's
+   order (lock, then compare) every fine-grained schedule from the initial state is a history of the coarse LTS in
+   which each call is one Write label placed where the call finishes, ending in the same state - so all theorems
+   above hold for these schedules ... *)
+Theorem C17_write_call_atomic : forall fmts n ls s ws tr,
+  micro_run LockThenCheck (init fmts n) [] ls = Some (s, ws, tr) -> run (init fmts n) tr = Some s.
+Proof. exact lock_then_check_refines. Qed.
+Print Assumptions C17_write_call_atomic.
+
+Theorem C17_write_call_atomic_order : forall fmts n ls s ws tr r rd,
+  0 < n -> micro_run LockThenCheck (init fmts n) [] ls = Some (s, ws, tr) -> s_readers s r = Some rd ->
+  exists q, ring_holds (r_buf rd) q /\ subseq (r_delivered rd ++ inflight rd ++ q) (offered r tr).
+Proof. exact lock_then_check_order. Qed.
+Print Assumptions C17_write_call_atomic_order.
+
+(* ... whereas with the comparison made before the lock is taken there is a schedule (the call of the replaced
+   publisher compares, the new publisher is installed, the call gets the lock and fans out) after which a reader
+   holds a unit that no current publisher wrote for it, and the emitted labels do not lead to that state *)
+Theorem C17_check_then_lock_refuted :
+  exists ls s ws tr rd,
+    micro_run CheckThenLock (init race_fmts 2) [] ls = Some (s, ws, tr) /\
+    s_readers s 1%Z = Some rd /\
+    offered 1%Z tr = [] /\
+    slot (r_buf rd) 0 = Some ((0, 0), 50)%Z /\
+    run (init race_fmts 2) tr <> Some s.
+Proof. exact check_then_lock_refuted. Qed.
+Print Assumptions C17_check_then_lock_refuted.
+
 (* the gortsplib ring buffer is a FIFO of capacity rb_size: Push appends when there is room ... *)
 Theorem C17_ring_push_room : forall rb q x,
   0 < rb_size rb -> ring_ok rb q -> length q < rb_size rb ->
@@ -154,15 +222,17 @@ Theorem C17_ring_pull : forall rb x q,
 Proof. exact ring_pull_item. Qed.
 Print Assumptions C17_ring_pull.
 
-(* non-vacuity: a history with full queues, discards by two readers, a stale write, removal while a unit is in
-   flight and one is queued; the final views and the `offered` lists are computed *)
+(* non-vacuity: media 0 with two formats, media 1 with one; reader 2 asks for (0,0), then (0,1), then - after a unit
+   was written - (1,0); full queues, discards by two readers, a stale write, removal while a unit is in flight and
+   one is queued; the final views and the `offered` / `asked` lists are computed *)
 Example C17_example :
-  match run (init [0; 1]%Z 2) ex_hist with
+  match run (init ex_fmts 2) ex_hist with
   | Some s =>
-      ex_view s 1 = Some ([(0%Z, 100%Z)], [(0%Z, 102%Z)], 1, 2, Attached) /\
-      ex_view s 2 = Some ([(0%Z, 100%Z)], [], 2, 0, Joined) /\
-      offered 1 ex_hist = [(0, 100); (0, 102); (0, 103); (0, 104); (0, 107)]%Z /\
-      offered 2 ex_hist = [(0, 100); (1, 101); (0, 102); (0, 103); (0, 104)]%Z
+      ex_view s 1 = Some ([((0, 0), 100)%Z], [((0, 0), 102)%Z], 1, 2, Attached) /\
+      ex_view s 2 = Some ([((0, 1), 101)%Z], [], 2, 0, Joined) /\
+      offered 1 ex_hist = [((0, 0), 100); ((0, 0), 102); ((0, 0), 103); ((0, 0), 104); ((0, 0), 108)]%Z /\
+      offered 2 ex_hist = [((0, 1), 101); ((0, 0), 102); ((0, 0), 103); ((0, 0), 104); ((1, 0), 105)]%Z /\
+      asked 2 ex_hist = [(0, 0); (0, 1); (1, 0)]%Z
   | None => False
   end.
 Proof. exact example_run. Qed.
@@ -171,3 +241,14 @@ Proof. exact example_run. Qed.
 Example C17_example_reachable :
   exists s, reachable s /\ exists rd, s_readers s 2%Z = Some rd /\ r_phase rd = Joined /\ r_discarded rd = 2.
 Proof. exact example_reachable. Qed.
+
+(* the driver's forced schedule in the code's order: the replaced publisher's call gets the lock after the switch *)
+Example C17_race_example :
+  match micro_run LockThenCheck (init race_fmts 2) [] race_good with
+  | Some (s, ws, tr) =>
+      tr = [NewSub 1; OnData 1 0 0; AddReader 1; NewSub 2; Write 1 (0, 0) 50]%Z /\ ws = [] /\
+      offered 1%Z tr = [] /\
+      match s_readers s 1%Z with Some rd => occupancy (r_buf rd) = 0 | None => False end
+  | None => False
+  end.
+Proof. exact race_good_run. Qed.
